@@ -2,6 +2,7 @@ package rules
 
 import (
 	"go/token"
+	"go/types"
 
 	"golang.org/x/tools/go/ssa"
 
@@ -444,8 +445,18 @@ func c17(x *Ctx) {
 			}
 		})
 		c.Decide(okArgs, rR, "processEvent/compared-shards", x.PosOf(rs.pe.Pos()), "WhichShard(traceID) compared with MyShard()", "ownership is not decided by comparing WhichShard(trace ID) with MyShard()")
+		// the key handed to the sharder (and the span's TraceID) is the payload's trace ID as is: both routers of every
+		// node must shard on the same string, or the node a span is forwarded to forwards it again
+		tidF := func(fr eng.FieldRef) bool { return fr.Name == "MetaTraceID" }
+		eng.Instrs(rs.pe, func(in ssa.Instruction) {
+			if cl, ok := eng.IsCall(in, "(sharder.Sharder).WhichShard"); ok {
+				arg := eng.CallArgs(cl)[0]
+				c.Decide(x.mustDerive(arg, func(v ssa.Value) bool { return loadsField(v, tidF) }), rR, "processEvent/shard-key", x.Pos(in), "the sharder is asked with the payload's trace ID unmodified",
+					"the string handed to WhichShard is not (on every path) the payload's trace ID as received: a transformation applied on one router type only (case folding, trimming) makes the forwarding node and the receiving node compute different owners, so spans take two hops or a trace is split")
+			}
+		})
 	}
-	c.Min(rR, 3)
+	c.Min(rR, 4)
 	// ---- sharder ---------------------------------------------------------------------------------
 	const rS = "C17.sort-before-index"
 	if lp := x.Fn(rS, "sharder", "DeterministicSharder", "loadPeerList"); lp != nil {
@@ -468,6 +479,59 @@ func c17(x *Ctx) {
 		})
 		if sortCall == nil {
 			c.Violate(rS, "loadPeerList/sort", x.PosOf(lp.Pos()), "the new peer list is never sorted: shard indices follow the order in which each node happened to learn its peers, so nodes disagree on owners")
+		} else {
+			// nothing looks at the list before it is sorted: any processing of the unsorted list (de-duplication of
+			// neighbours, truncation, …) depends on the order in which this node learnt its peers
+			sorted := eng.CallArgs(sortCall.(ssa.CallInstruction))[0]
+			aliases := map[ssa.Value]bool{}
+			var grow func(v ssa.Value)
+			grow = func(v ssa.Value) {
+				if v == nil || aliases[v] {
+					return
+				}
+				aliases[v] = true
+				switch y := v.(type) {
+				case *ssa.ChangeType:
+					grow(y.X)
+				case *ssa.MakeInterface:
+					grow(y.X)
+				case *ssa.Phi:
+					for _, e := range y.Edges {
+						grow(e)
+					}
+				case *ssa.Slice:
+					grow(y.X)
+				case *ssa.Call:
+					// the result of a call that was handed the list (e.g. slices.Compact) continues the list
+					for _, a := range y.Call.Args {
+						if _, isSlice := a.Type().Underlying().(*types.Slice); isSlice {
+							grow(a)
+						}
+					}
+				}
+			}
+			grow(sorted)
+			var early ssa.Instruction
+			eng.Instrs(lp, func(in ssa.Instruction) {
+				cl, ok := in.(*ssa.Call)
+				if !ok || in == sortCall || early != nil {
+					return
+				}
+				if _, isB := cl.Call.Value.(*ssa.Builtin); isB {
+					return // len, cap, append while the list is assembled
+				}
+				for _, a := range cl.Call.Args {
+					if aliases[a] && eng.MayPrecede(in, sortCall) && !eng.Dominates(sortCall, in) {
+						early = in
+					}
+				}
+			})
+			c.Examined++
+			if early != nil {
+				c.Violate(rS, "loadPeerList/nothing-before-sort", x.Pos(early), "the assembled peer list is handed to "+eng.CalleeName(early.(ssa.CallInstruction))+" before it is sorted: what that call does depends on the order in which this node learnt its peers, so two nodes with the same members can build different partition tables")
+			} else {
+				c.Hold(rS, "loadPeerList/nothing-before-sort", x.Pos(sortCall), "the sort is the first operation on the assembled list")
+			}
 		}
 		for _, h := range hashCalls {
 			c.Examined++
@@ -507,18 +571,11 @@ func c17(x *Ctx) {
 	const rW = "C17.which-shard"
 	if ws := x.Fn(rW, "sharder", "DeterministicSharder", "WhichShard"); ws != nil {
 		peersF, hashesF := eng.FieldIs("sharder", "DeterministicSharder", "peers"), eng.FieldIs("sharder", "DeterministicSharder", "hashes")
-		eng.Instrs(ws, func(in ssa.Instruction) {
-			ret, ok := in.(*ssa.Return)
-			if !ok {
-				return
-			}
+		for _, rv := range returnedValues(ws, 0) {
 			bad := ""
-			for _, l := range leaves(ret.Results[0], func(cl *ssa.Call) bool { return pureHashFuncs[eng.CalleeName(cl)] }) {
-				_ = l
-			}
 			// the result is peers[ix] with ix only from hashShard.shardIndex or a constant
 			var idx ssa.Value
-			eng.Derives(ret.Results[0], func(v ssa.Value) bool {
+			eng.Derives(rv, func(v ssa.Value) bool {
 				if ia, ok := v.(*ssa.IndexAddr); ok && loadsField(ia.X, peersF) {
 					idx = ia.Index
 				}
@@ -543,8 +600,12 @@ func c17(x *Ctx) {
 					}
 				}
 			}
-			c.Decide(bad == "", rW, "WhichShard/owner-in-peers", x.Pos(ret), "returns peers[shardIndex of the best hash]", bad)
-		})
+			p := x.PosOf(ws.Pos())
+			if in, ok := rv.(ssa.Instruction); ok {
+				p = x.Pos(in)
+			}
+			c.Decide(bad == "", rW, "WhichShard/owner-in-peers", p, "returns peers[shardIndex of the best hash]", bad+": WhichShard can answer with a shard that is not read from the current peer list under the lock (a remembered answer survives a membership change), so nodes disagree on the owner")
+		}
 		// the comparison uses hashes of the trace ID seeded by the hash list only
 		pure := true
 		why := ""
